@@ -552,7 +552,49 @@ def run_bootstrap_crossval_folds(ctx):
                 return
 
 
+def run_many_groups(ctx):
+    """a realistic group study: 18-26 subjects with 2-3 sessions each, the subject descriptor stored as a numpy array of
+    strings or floats.  Leave-one-subject-out: the test set holds exactly that subject's RDMs, the training set exactly
+    all the others (ground truth: the uid every RDM carries)"""
+    rng = ctx.rng
+    n_grp, per = int(rng.integers(18, 27)), int(rng.integers(2, 4))
+    n_rdm, n_cond = n_grp * per, 4
+    order = rng.permutation(n_rdm)
+    kind = gen.pick(rng, ['str', 'float'])
+    lab = (lambda g: f'subj{g:02d}') if kind == 'str' else (lambda g: float(g) + 0.5)
+    grp = np.array([lab(int(i) // per) for i in order])
+    rd = RDMs(gen.rdm_vectors(rng, n_rdm, n_cond, 'pos'), rdm_descriptors={'uid': list(range(n_rdm)), 'grp': grp},
+              pattern_descriptors={'puid': list(range(n_cond))})
+    truth = {u: grp[u] for u in range(n_rdm)}
+    sig = dict(generator='sets_leave_one_out_rdm', k='kx1', scheme='many_groups', dimension='rdm', labels=kind)
+    wit = lambda **k: dict(grp=grp.tolist(), **k)  # noqa: E731
+    ok, out = ctx.guarded('sets_leave_one_out_rdm', sig, CS.sets_leave_one_out_rdm, rd, 'grp', data=wit)
+    if not ok:
+        return
+    train_set, test_set, _ = out
+    ctx.case('sets_leave_one_out_rdm', sig)
+    seen = []
+    for tr_f, te_f in zip(train_set, test_set):
+        te_u = sorted(int(v) for v in te_f[0].rdm_descriptors['uid'])
+        tr_u = sorted(int(v) for v in tr_f[0].rdm_descriptors['uid'])
+        g = {truth[u] for u in te_u}
+        want_te = sorted(u for u in range(n_rdm) if truth[u] in g)
+        want_tr = sorted(u for u in range(n_rdm) if truth[u] not in g)
+        if len(g) != 1 or te_u != want_te or tr_u != want_tr:
+            ctx.fail('sets_leave_one_out_rdm', dict(sig, what='rdm_groups_overlap' if set(tr_u) & set(want_te) else 'group_members_split'),
+                     f'leave-one-subject-out over {n_grp} subjects: test RDMs {te_u} (subjects {sorted(map(str, g))}), training '
+                     f'set holds {len(tr_u)} RDMs, expected the {len(want_tr)} RDMs of all other subjects; overlap '
+                     f'{sorted(set(tr_u) & set(want_te))}', wit())
+            return
+        seen.append(next(iter(g)))
+    if sorted(map(str, seen)) != sorted(map(str, set(grp.tolist()))):
+        ctx.fail('sets_leave_one_out_rdm', dict(sig, what='not_exactly_one_test_fold'), 'not every subject is left out exactly '
+                 'once', wit())
+
+
 def run(ctx):
+    for _ in range(ctx.n(3, 8)):
+        run_many_groups(ctx)
     for _ in range(ctx.n(6, 12)):
         run_bootstrap_crossval_folds(ctx)
     n = ctx.n(120, 1600)
